@@ -111,6 +111,16 @@ def specOutcome (parse : Bytes → Option Form) (boundary d : Bytes) (err : Bool
     let r := specFile (13 :: 10 :: 45 :: 45 :: boundary) (d.drop f.restStart) err
     ⟨some (f.fields, f.fileName, f.contentType), r.1, r.2.toEnd⟩
 
+/-! ## field lookup (C10) -/
+
+/-- the value of the LAST pair named `name` (duplicate form fields: the last one sent wins) -/
+def lastField (name : Bytes) : List (Bytes × Bytes) → Option Bytes
+  | [] => none
+  | f :: l =>
+    match lastField name l with
+    | some v => some v
+    | none => if f.1 = name then some f.2 else none
+
 /-! ## buffered and plain bodies (clauses a, b) -/
 
 /-- a plain streamed body hands on the data frames in front of the first error, then the error -/
